@@ -38,7 +38,8 @@ STUB = ["child process: FakeProcess playing an MCP server", "anyio.run inside ru
         "config files: real files in a scratch directory outside /repo and /verif, removed after the run"]
 SHRINK_LISTS = ["servers", "names"]
 
-ARGS_POOL = ["--flag", "-m", "server.py", "with space", "quo\"te", "sing'le", "", "ünï", "日本語", "a=b", "--path=/tmp/x y", "$HOME", "*", "\\back"]
+ARGS_POOL = ["--flag", "-m", "server.py", "with space", "quo\"te", "sing'le", "", "ünï", "日本語", "a=b", "--path=/tmp/x y", "$HOME", "*", "\\back",
+             " leading", "trailing ", "tab\t", "--sep= ", " ", "nl\n"]
 _scratch = None
 
 
@@ -61,7 +62,7 @@ def generate(rng: random.Random, tier: str) -> dict:
             del s["args"]
         r = rng.random()
         if r < 0.35:
-            s["env"] = {rng.choice(["API_KEY", "PATH", "X_Y", "LOG_LEVEL"]): rng.choice(["v", "/bin", "ERROR", "ü", ""]) for _ in range(rng.choice([1, 2, 3]))}
+            s["env"] = {rng.choice(["API_KEY", "PATH", "X_Y", "LOG_LEVEL"]): rng.choice(["v", "/bin", "ERROR", "ü", "", " padded ", "trail\n"]) for _ in range(rng.choice([1, 2, 3]))}
         elif r < 0.45:
             s["env"] = {}
         elif r < 0.5:
@@ -89,7 +90,8 @@ def generate(rng: random.Random, tier: str) -> dict:
         names = [s["name"] for s in rng.sample(servers, k)]
     else:
         names = [rng.choice(servers)["name"]]
-    return {"v": 1, "entry": entry, "servers": servers, "names": names, "malformed": malformed, "unknown_pos": rng.randrange(0, 5),
+    return {"v": 1, "invalid_how": rng.choice(["commas", "truncated_at_line_boundary", "missing_final_brace", "open_brace_only", "blank_lines", "empty_file"]),
+            "entry": entry, "servers": servers, "names": names, "malformed": malformed, "unknown_pos": rng.randrange(0, 5),
             "cmd_name": rng.choice(["cmd", "interactive_mode", "chat_run"]), "extra_top": rng.random() < 0.2}
 
 
@@ -166,7 +168,21 @@ def _execute(scn: dict) -> dict:
         with open(path, "w", encoding="utf-8") as f:
             txt = json.dumps(_config_json(scn), ensure_ascii=False)
             if scn["malformed"] == "invalid_json":
-                txt = txt[:-2] + ",,}"
+                how = scn.get("invalid_how", "commas")
+                if how == "commas":
+                    txt = txt[:-2] + ",,}"
+                elif how == "truncated_at_line_boundary":
+                    # a pretty-printed file cut at the end of a line (the decoder reports the error on the line after the last newline)
+                    pretty = json.dumps(_config_json(scn), ensure_ascii=False, indent=2).split("\n")
+                    txt = "\n".join(pretty[: max(1, len(pretty) // 2)]) + "\n"
+                elif how == "missing_final_brace":
+                    txt = json.dumps(_config_json(scn), ensure_ascii=False, indent=2)[:-1].rstrip() + "\n"
+                elif how == "open_brace_only":
+                    txt = "{\n"
+                elif how == "blank_lines":
+                    txt = "\n\n\n"
+                else:
+                    txt = ""
             f.write(txt)
     st = {"cmd_called": None, "os_system": [], "outcome": None, "sims": []}
     factory_box = {}
